@@ -81,7 +81,8 @@ def startsWithSpecifier (p : Str) : Bool :=
 
 /-- absolute_from: `cwd` is only consulted when `root` is empty -/
 def absoluteFrom (cwd root p : Str) : Str :=
-  if !startsWithSpecifier p && !isAbs p then
+  if startsWithSpecifier p then p   -- not resolved, not even normalised: "%h/.." is not ""
+  else if !isAbs p then
     (if !root.isEmpty then cleaned (joinPath root p) else cleaned (joinPath cwd p))
   else cleaned p
 
